@@ -218,7 +218,8 @@ def run(chk):
     for i, (m, sname) in enumerate(mats):
         n = len(m)
         chk.count((sname, tuple(map(tuple, m))), n >= 4, branch=['stream:' + sname, 'taxa:%d' % min(n, 10)])
-        taxa = ['T%d' % j for j in range(n)]
+        # every third name carries an underscore (language names such as Old_English): it is part of the name
+        taxa = [('T%d' if j % 3 else 'L_%d') % j for j in range(n)]
         for which in ('_upgma', '_neighbor'):
             if which == '_neighbor' and n < 2:
                 continue
@@ -259,13 +260,24 @@ def run(chk):
                                     d_str += float(node.Length or 0.0)
                                     node = node.Parent
                                     hops += 1
-                                want = depths[int(leaf.Name[1:])]
+                                want = depths[taxa.index(leaf.Name)]
                                 if abs(d_str - want) > 0.005 * hops + 1e-9 * max(1.0, abs(want)):
                                     fails.append((fn.__name__, m, 'depth of %s in the Newick string is %r, the tree matrix gives %r (%d branches written with two decimals)'
                                                   % (leaf.Name, d_str, want, hops)))
                                     break
                     except Exception as ex:  # noqa
                         fails.append((fn.__name__, m, 'Newick %r does not parse: %s' % (nwk, type(ex).__name__)))
+            # the tree object of the same analysis
+            if n >= 2:
+                for calc in ('upgma', 'neighbor'):
+                    chk.evaluations += 1
+                    try:
+                        node = clustering.matrix2tree([list(r) for r in m], taxa, tree_calc=calc)
+                        got = sorted(x.Name for x in node.tips())
+                    except Exception as ex:  # noqa
+                        got = 'raised %s' % type(ex).__name__
+                    if got != sorted(taxa):
+                        fails.append(('matrix2tree', m, 'matrix2tree(tree_calc=%r) with taxa %r: leaves of the returned tree are %r' % (calc, taxa, got)))
     # matrices made by the library's own helper (squareform of a condensed vector, as in the documentation), several of them kept
     # while others of the same size are made and while a larger analysis runs: each must still give the tree of its own distances
     try:
